@@ -229,6 +229,42 @@ fn one_case(ctx: &Ctx, case: u64, l: &mut Local) {
             if at_border {
                 ops.extend(alpha.iter().map(|c| CharOp::Ins(*c)));
             }
+            // non-ASCII / invisible / control characters: two random ones per position, all at borders
+            {
+                let mut odd: Vec<(char, bool)> = vec![(*r.pick(&tamper::ODD_CHARS), false), (*r.pick(&tamper::ODD_CHARS), true)];
+                if at_border {
+                    odd.extend(tamper::ODD_CHARS.iter().map(|c| (*c, false)));
+                }
+                for (c, replace) in odd {
+                    let edited = match tamper::apply_char(text, pos, c, replace) {
+                        Some(e) => e,
+                        None => continue,
+                    };
+                    let mut mem = segs.clone();
+                    let whole;
+                    let enc: Option<String> = if fmt == Fmt::Json {
+                        mem[*seg_no] = edited;
+                        let mut m = serde_json::Map::new();
+                        m.insert("protected".into(), json!(mem[0]));
+                        m.insert("payload".into(), json!(mem[1]));
+                        m.insert("signature".into(), json!(mem[2]));
+                        m.insert("disclosures".into(), json!(t.parts.disclosures));
+                        if let Some(k) = &t.parts.kb {
+                            m.insert("kb_jwt".into(), json!(k));
+                        }
+                        Some(Value::Object(m).to_string())
+                    } else {
+                        whole = edited;
+                        let mut p2 = t.parts.clone();
+                        p2.jwt = whole;
+                        Some(p2.to_compact())
+                    };
+                    let v = enc.map(|e| api::verify(&e, &fixed, t.kb.as_ref().map(|(a, n)| (a.as_str(), n.as_str())), fmt));
+                    j.l.distinct(crate::rng::mix(case ^ ((pos as u64) << 20) ^ ((c as u64) << 40) ^ ((replace as u64) << 62) ^ ((*seg_no as u64) << 58)));
+                    j.l.count(if replace { "fault.char.substitute.non-ascii" } else { "fault.char.insert.non-ascii" });
+                    j.reject("char", &format!("{} of U+{:04X} ({} {})", if replace { "substitute" } else { "insert" }, c as u32, alg.name(), fmt.name()), v, || json!({"char": format!("U+{:04X}", c as u32), "pos": pos, "replace": replace}));
+                }
+            }
             for op in ops {
                 let edited = match tamper::apply(text, pos, op) {
                     Some(e) => e,
@@ -380,6 +416,44 @@ fn one_case(ctx: &Ctx, case: u64, l: &mut Local) {
                 let forged = api::sign_raw(&json!({"alg": hs, "typ": "JWT"}), &payload, a, &jsonwebtoken::EncodingKey::from_secret(&secret));
                 structural(&mut j, &format!("{}-keyed-with-public-key-{name}", hs.to_lowercase()), Some(forged), &fixed);
             }
+        }
+    }
+    // ---- header members other than alg: the resolver must be handed the token's OWN header
+    if alg != Alg::HS256 || true {
+        let payload: Value = t.parts.payload().unwrap_or(Value::Null);
+        let mk = |hdr: Value, key_idx: usize| -> String { api::sign_raw(&hdr, &payload, alg.jwt(), &keys::issuer_enc(alg, key_idx)) };
+        // control: kid "k0" signed by key 0, resolver keyed by kid -> accepted, and the resolver saw kid and typ
+        let mut p = t.parts.clone();
+        p.jwt = mk(json!({"alg": alg.name(), "typ": "sd+jwt", "kid": "k0"}), 0);
+        if t.kb.is_none() {
+            let v = verify_parts(&t, &p, &Resolver::ByKid(alg));
+            if let Some(v) = v {
+                j.l.evals += 1;
+                let seen = v.resolver_calls.first().map(|c| c.header.clone()).unwrap_or(Value::Null);
+                if !v.out.is_ok() {
+                    j.l.violate(Violation { subcheck: "control-rejected".into(), class: "token with kid, resolver keyed by kid".into(), observed: v.out.panic_signature().unwrap_or_else(|| v.out.describe()), case, detail: json!({"jwt": p.jwt}) });
+                } else if seen["kid"] != "k0" || seen["typ"] != "sd+jwt" {
+                    j.l.violate(Violation { subcheck: "resolver-invocation".into(), class: "header members".into(), observed: "resolver was not handed the token's own header (kid / typ differ)".into(), case, detail: json!({"token_header": {"alg": alg.name(), "typ": "sd+jwt", "kid": "k0"}, "resolver_saw": seen}) });
+                } else {
+                    j.l.count("control.by-kid.accepted");
+                }
+            }
+            // signed by key 0 but naming kid k1 (-> key 1): must be rejected
+            let mut q = t.parts.clone();
+            q.jwt = mk(json!({"alg": alg.name(), "kid": "k1"}), 0);
+            let v = verify_parts(&t, &q, &Resolver::ByKid(alg));
+            j.l.count("fault.structural.kind.kid-of-other-key");
+            j.reject("structural", &format!("signed by key 0, header names kid of key 1 ({} {})", alg.name(), fmt.name()), v, || json!({"jwt": q.jwt}));
+        }
+    }
+    // ---- a key announced in the token's own header (jwk / jku / x5c) must never be used
+    {
+        let mut payload: Value = t.parts.payload().unwrap_or(Value::Null);
+        payload["admin#forged;"] = json!(true);
+        for (ha, hidx) in [(Alg::ES256, 0usize), (Alg::EdDSA, 1)] {
+            let hdr = json!({"alg": ha.name(), "jwk": keys::holder_jwk_json(ha, hidx), "kid": "attacker", "jku": "https://attacker.example/keys", "x5c": ["AAAA"]});
+            let forged = api::sign_raw(&hdr, &payload, ha.jwt(), &keys::holder_enc(ha, hidx));
+            structural(&mut j, &format!("resigned-with-key-announced-in-header-{}", ha.name()), Some(forged), &fixed);
         }
     }
     // signed by a different key of the same family / resolver returning other keys
